@@ -1,2 +1,3 @@
 pub mod util;
 pub mod erralg;
+pub mod accum;
